@@ -17,6 +17,11 @@ GENEQ = {"theories/Proofs/GenEq_MetricTable.vo": "MetricTable", "theories/Proofs
          "theories/Proofs/GenEq_ResultCalc.vo": "ResultCalc", "theories/Proofs/GenEq_ZeroCases.vo": "ZeroCases",
          "theories/Proofs/GenEq_EvalTP.vo": "EvalTP", "theories/Proofs/GenEq_MatcherLoop.vo": "MatcherLoop",
          "theories/Proofs/GenEq_EdgeCase.vo": "EdgeCase", "theories/Proofs/GenEq_Crop.vo": "Crop"}
+# units added to the cone after round 2 of the seeded changes (a refused / changed unit must be noticed by this check too)
+TARGETS = TARGETS + ["theories/Proofs/GenEq_Backend.vo"]
+GENEQ = dict(GENEQ, **{"theories/Proofs/GenEq_Backend.vo": "Backend"})
+TARGETS = TARGETS + ["theories/Proofs/GenEq_EvalSM.vo"]
+GENEQ = dict(GENEQ, **{"theories/Proofs/GenEq_EvalSM.vo": "EvalSM"})
 ALLOWED_AXIOMS = []
 RULE = ("case = (label-map pair in 1-D/2-D/3-D incl. 0 instances, touching/split/merged/shifted/border instances; input type semantic/unmatched/"
         "matched; matching metric IOU/DSC/ASSD; thresholds incl. achieved scores; optional decision metric/threshold; backend default/cc3d/scipy); "
